@@ -279,6 +279,9 @@ structure SpecOut where
   handlerRan : Bool
   seen : Seen
   errCalls : List ErrCode
+  /-- whether the client's writer may have been driven into a panic (only by the callback's or, in non-strict
+  mode, the handler's own invalid WriteHeader code — never by the middleware) -/
+  panicked : Bool
   /-- when present: the complete client state is prescribed (transparent pass-through / own answer) -/
   full : Option Client
   deriving DecidableEq, Repr
@@ -286,21 +289,22 @@ structure SpecOut where
 def spec (cfg : Cfg) (env : Env) (ops : List Op) : SpecOut :=
   if env.routeFound && env.reqOK then
     if cfg.strict then
-      if respValid env ops then ⟨true, ⟨(wroteStatus ops).getD 200, written ops⟩, [], none⟩
-      else ⟨true, (runDirect {} (cfg.errOps .responseInvalid)).seen, [.responseInvalid], none⟩
-    else ⟨true, (runDirect {} ops).seen, [], some (runDirect {} ops)⟩
+      if respValid env ops then ⟨true, ⟨(wroteStatus ops).getD 200, written ops⟩, [], false, none⟩
+      else ⟨true, (runDirect {} (cfg.errOps .responseInvalid)).seen, [.responseInvalid],
+            (runDirect {} (cfg.errOps .responseInvalid)).panicked, none⟩
+    else ⟨true, (runDirect {} ops).seen, [], (runDirect {} ops).panicked, some (runDirect {} ops)⟩
   else
     let code := if env.routeFound then ErrCode.requestInvalid else ErrCode.cannotFindRoute
     let c := runDirect {} (cfg.errOps code)
-    ⟨false, c.seen, [code], some c⟩
+    ⟨false, c.seen, [code], c.panicked, some c⟩
 
 def Meets (o : Outcome) (s : SpecOut) : Prop :=
   o.handlerRan = s.handlerRan ∧ o.client.seen = s.seen ∧ o.errCalls = s.errCalls ∧
-  ∀ c, s.full = some c → o.client = c
+  o.client.panicked = s.panicked ∧ ∀ c, s.full = some c → o.client = c
 
 def meetsB (o : Outcome) (s : SpecOut) : Bool :=
   decide (o.handlerRan = s.handlerRan) && decide (o.client.seen = s.seen) && decide (o.errCalls = s.errCalls) &&
-  (match s.full with | some c => decide (o.client = c) | none => true)
+  decide (o.client.panicked = s.panicked) && (match s.full with | some c => decide (o.client = c) | none => true)
 
 /-- **Exclusion (finding F-C14-1).** The handler returns without any WriteHeader/Write, so the wrapper reports
 status 0 to ValidateResponse although the client receives 200; the class is where that changes the verdict
